@@ -2,7 +2,7 @@
    Forward/ForwardSound.v.  h_<Class>_<method> / m_<Class>_<method> are the descriptions
    regenerated from /repo's source on every run (Forward/Gen_forward.v). *)
 From VT Require Import Base.PyVal Forward.Forward Forward.ForwardSound Forward.Gen_forward
-                       Forward.ForwardProofs.
+                       Forward.ForwardProofs Forward.Life Forward.LifeSound Forward.LifeProofs.
 
 Theorem C17_Namespace_emit : forwards_ok h_Namespace_emit m_Server_emit.
 Proof. exact Namespace_emit_forwards. Qed.
@@ -117,3 +117,36 @@ Print Assumptions C17_post_checker_sound.
 Theorem C17_defective_helper_refuted : ~ forwards_ok bad_drop u_emit.
 Proof. exact bad_drop_refuted. Qed.
 Print Assumptions C17_defective_helper_refuted.
+
+(* ---- the life of a namespace object (Forward/Life.v): after ANY sequence of attach / register /
+        events routed to the object / handler exits / helper calls, the object is filed under the
+        namespace it was created for and every helper forwards with that namespace ---- *)
+Theorem C17_life_Namespace : life_ok k_Namespace pairs_Namespace.
+Proof. exact Namespace_life. Qed.
+Print Assumptions C17_life_Namespace.
+Theorem C17_life_ClientNamespace : life_ok k_ClientNamespace pairs_ClientNamespace.
+Proof. exact ClientNamespace_life. Qed.
+Print Assumptions C17_life_ClientNamespace.
+Theorem C17_life_AsyncNamespace : life_ok k_AsyncNamespace pairs_AsyncNamespace.
+Proof. exact AsyncNamespace_life. Qed.
+Print Assumptions C17_life_AsyncNamespace.
+Theorem C17_life_AsyncClientNamespace : life_ok k_AsyncClientNamespace pairs_AsyncClientNamespace.
+Proof. exact AsyncClientNamespace_life. Qed.
+Print Assumptions C17_life_AsyncClientNamespace.
+
+Theorem C17_life_classes_cover :
+  flat_map snd all_classes = all_pairs /\
+  map (fun kp => k_class (fst kp)) all_classes =
+    [s2l "Namespace"; s2l "ClientNamespace"; s2l "AsyncNamespace"; s2l "AsyncClientNamespace"] /\
+  forallb (fun kp => forallb (fun hu => list_eqb N.eqb (h_class (fst hu)) (k_class (fst kp))) (snd kp))
+          all_classes = true.
+Proof. exact all_classes_cover. Qed.
+Print Assumptions C17_life_classes_cover.
+
+Theorem C17_life_checker_sound : forall k tbl, life_okb k tbl = true -> life_ok k tbl.
+Proof. exact life_okb_sound. Qed.
+Print Assumptions C17_life_checker_sound.
+
+Theorem C17_life_defective_class_refuted : ~ life_ok k_follow hand_tbl.
+Proof. exact k_follow_refuted. Qed.
+Print Assumptions C17_life_defective_class_refuted.
